@@ -75,7 +75,7 @@ pub fn explore(ctx: &Ctx) {
     ctx.assume("differences taken cyclically on whole (truncated) seconds; the stated bounds are applied to these observed values (measured worst cases 2/4/4/6 s leave room for the <2 s quantisation of a second difference)");
     let all = d_all();
     let lats = [0.0, 10.0, -10.0, 25.0, -25.0, 35.0, -35.0, 40.0, -40.0, 45.0, -45.0];
-    let zs: Vec<(f64, f64)> = if quick { vec![(-77.2086, -5.0), (39.8233, 3.0), (151.2, 10.0), (0.0, 3.5)] } else { zones(45.0, &[-3.5, 0.0, 3.5]) };
+    let zs: Vec<(f64, f64)> = if quick { vec![(-77.2086, -5.0), (39.8233, 3.0), (151.2, 10.0), (0.0, 3.5)] } else { vec![(-180.0, -12.0), (-180.0, -8.5), (-135.0, -9.0), (-77.2086, -5.0), (-77.2086, -1.5), (-45.0, -3.0), (0.0, 0.0), (0.0, 3.5), (7.5, 0.5), (39.8233, 3.0), (82.5, 5.5), (90.0, 2.5), (135.0, 9.0), (151.2, 10.0), (180.0, 12.0), (180.0, 8.5)] };
     let methods: Vec<Method> = if quick { vec![Method::Mwl, Method::Hanafi] } else { ANGLE6.to_vec() };
     let mut jobs = vec![];
     let mut n = 0;
